@@ -36,6 +36,10 @@ type GError struct {
 	// case of a Convert() call.
 	srcError error
 
+	// laterSrcErrors holds the errors of further Convert() calls made on an error that already
+	// has a srcError. srcError stays the original one; these only add matches for Is.
+	laterSrcErrors []error
+
 	isFactory bool
 }
 
@@ -206,8 +210,13 @@ func (e *GError) Is(err error) bool {
 	}
 	if e == err ||
 		e.factoryRef != nil && e.factoryRef == err ||
-		e.srcError != nil && reflect.TypeOf(e.srcError).Comparable() && e.srcError == err {
+		isConvertedFrom(e.srcError, err) {
 		return true
+	}
+	for _, later := range e.laterSrcErrors {
+		if isConvertedFrom(later, err) {
+			return true
+		}
 	}
 	gerr, ok := err.(Error)
 	if !ok {
@@ -218,6 +227,12 @@ func (e *GError) Is(err error) bool {
 	}
 
 	return false
+}
+
+// isConvertedFrom reports whether converted (an error recorded by Convert) is err. Errors of a
+// non-comparable dynamic type never match (comparing them would panic).
+func isConvertedFrom(converted, err error) bool {
+	return converted != nil && reflect.TypeOf(converted).Comparable() && converted == err
 }
 
 func (e *GError) _embededGError() *GError {
